@@ -144,7 +144,31 @@ fn run_job(ctx: &Ctx, sh: &Shared, job_index: u64, job: &Job) {
     }
     ctx.eval(tuples.len() as u64);
     *sh.per_mn.lock().unwrap().entry(form.name.clone()).or_insert(0) += tuples.len() as u64;
-    let out = fw::build_str(&src);
+    // every fourth batch reaches the assembler as a file: blank lines in front, LF or CRLF, no line end behind
+    // the last instruction
+    let as_file = job_index % 4 == 3;
+    let out = if as_file {
+        let mut t = format!("{}{}", ["", "\n", " \n\t\n"][(job_index / 4 % 3) as usize], src);
+        if job_index / 12 % 2 == 1 {
+            t = t.replace('\n', "\r\n");
+        }
+        while t.ends_with('\n') || t.ends_with('\r') {
+            t.pop();
+        }
+        ctx.count("batches_built_as_files", 1);
+        let o = fw::build_main_with_part_bytes(t.as_bytes(), b"");
+        if !matches!(&o, Outcome::Ok(b) if b.code == expect) && matches!(fw::build_str(&src), Outcome::Ok(b) if b.code == expect) {
+            ctx.violation(
+                format!("enc/{}/batch-as-file", form.name),
+                format!("{} lines of `{}` assemble right as one text but not as a file (blank lines in front, no final line end): {}", tuples.len(), form.mn, fw::clip(&format!("{:?}", o.brief()), 160)),
+                json!({"file_bytes_hex": fw::hex(t.as_bytes(), 1 << 22), "form": form.name, "as_file": true, "expect_code": fw::hex(&expect, 1 << 22)}),
+            );
+            return;
+        }
+        o
+    } else {
+        fw::build_str(&src)
+    };
     let ok = matches!(&out, Outcome::Ok(b) if b.code == expect);
     if ok {
         // independent decode of what was really emitted (one-word forms; two-word sampled)
@@ -483,7 +507,7 @@ pub fn run(ctx: &Ctx) -> i32 {
     crate::refmodel::llvm::crosscheck(ctx, ctx.tier == Tier::Thorough);
     fw::finish(
         ctx,
-        "every ISA-legal operand tuple of every supported instruction form is assembled (batches of 4096 lines, random radix/case/blank spelling) and compared byte-for-byte with the reference encoder and re-decoded by an independent decoder; plus a high-address slice (48 tuples per form behind .org 0x12345) an interleaving slice (3000 single-line builds on one thread alternating between the reduced core, no device and random forms) and an operand-path slice (8 tuples per form written through .def aliases, .equ/.set symbols and macro arguments, the macro arguments also as computed expressions with right-grouped operands, half of them behind a `.db` string whose byte count differs from its character count or that holds backslash sequences); `exhaustive` refers to the spaces listed under complete_spaces; distinct_nontrivial = distinct first instruction words emitted (bitmap over 65536)",
+        "every ISA-legal operand tuple of every supported instruction form is assembled (batches of 4096 lines, random radix/case/blank spelling; every fourth batch as a file with blank lines in front, LF or CRLF and no final line end) and compared byte-for-byte with the reference encoder and re-decoded by an independent decoder; plus a high-address slice (48 tuples per form behind .org 0x12345) an interleaving slice (3000 single-line builds on one thread alternating between the reduced core, no device and random forms) and an operand-path slice (8 tuples per form written through .def aliases, .equ/.set symbols and macro arguments, the macro arguments also as computed expressions with right-grouped operands, half of them behind a `.db` string whose byte count differs from its character count or that holds backslash sequences); `exhaustive` refers to the spaces listed under complete_spaces; distinct_nontrivial = distinct first instruction words emitted (bitmap over 65536)",
         &[
             "refmodel/isa.rs is a faithful transcription of the AVR Instruction Set Manual (self-checked decode∘encode, cross-checked against llvm-mc-14 where available)",
             "relative operands are written as pc±k at word address 4096; label-based targets belong to C03",
@@ -492,6 +516,18 @@ pub fn run(ctx: &Ctx) -> i32 {
 }
 
 pub fn replay(ctx: &Ctx, case: &Value) -> i32 {
+    if case["as_file"].as_bool() == Some(true) {
+        let hexs = case["file_bytes_hex"].as_str().unwrap_or("");
+        let bytes: Vec<u8> = (0..hexs.len() / 2).filter_map(|i| u8::from_str_radix(&hexs[2 * i..2 * i + 2], 16).ok()).collect();
+        let out = fw::build_main_with_part_bytes(&bytes, b"");
+        ctx.eval(1);
+        ctx.distinct(1);
+        ctx.distinct(2);
+        if !matches!(&out, Outcome::Ok(b) if Some(fw::hex(&b.code, 1 << 22).as_str()) == case["expect_code"].as_str()) {
+            ctx.violation("enc/replay", "the batch built as a file still deviates".to_string(), case.clone());
+        }
+        return fw::finish(ctx, "replay", &[]);
+    }
     let form = isa::form(case["form"].as_str().unwrap_or(""));
     let vals: Vec<i64> = case["vals"].as_array().map(|a| a.iter().filter_map(|x| x.as_i64()).collect()).unwrap_or_default();
     let src = case["source"].as_str().unwrap_or("");
